@@ -214,7 +214,13 @@ impl TryFrom<Vec<u8>> for Actor {
         let mut buf = bytes::Bytes::copy_from_slice(&value);
 
         // let ty = buf.get_u8();
+        if buf.remaining() < 2 {
+            return Err(());
+        }
         let name_len = buf.get_u16() as usize;
+        if buf.remaining() < name_len + 1 {
+            return Err(());
+        }
         let name = String::from_utf8_lossy(&buf[..name_len]).to_string();
         buf.advance(name_len);
 
@@ -223,7 +229,13 @@ impl TryFrom<Vec<u8>> for Actor {
         let mut segments = Vec::with_capacity(segment_count);
 
         for _ in 0..segment_count {
+            if buf.remaining() < 2 {
+                return Err(());
+            }
             let name_len = buf.get_u16() as usize;
+            if buf.remaining() < name_len + 24 {
+                return Err(());
+            }
             let name = String::from_utf8_lossy(&buf[..name_len]).to_string();
             buf.advance(name_len);
 
